@@ -362,8 +362,11 @@ def loop_items(tier, seed):
     else:
         plan = [("A", "fall"), ("A", "rise-fall"), ("A", "flat"), ("B", "rise-fall"), ("C", "zigzag")]
     for cfg, pat in plan:
-        for s in scripts_:
+        for i, s in enumerate(scripts_):
             out.append(dict(name=f"loop-{cfg}-{pat}-{s}", part="loop", cfg=cfg, pattern=pat, script=s, seed=seed))
+            if i % 3 == 0:
+                # a batch larger than the buffer content at the first releases (sampling is with replacement)
+                out.append(dict(name=f"loop-{cfg}-{pat}-{s}-bs9", part="loop", cfg=cfg, pattern=pat, script=s, seed=seed, batch_size=9))
     return out
 
 
@@ -492,11 +495,11 @@ def l_work(item, col):
     col.outcome("l_runs_preceded_by_an_unrelated_train_td7_call")
     env.on_step = on_step
     lg.on_epoch = on_epoch
-    detail0 = dict(script=script, levels=levels, config=cfg, warmup=WARMUP, horizon=T, seed=seed)
+    detail0 = dict(script=script, levels=levels, config=cfg, warmup=WARMUP, horizon=T, seed=seed, batch_size=item.get("batch_size", 2))
     try:
         res = train_td7(
             env, st.embedding, st.embedding_optimizer, st.actor, st.actor_optimizer, st.critic, st.critic_optimizer,
-            seed=seed, total_timesteps=T, buffer_size=16, batch_size=2, learning_starts=WARMUP,
+            seed=seed, total_timesteps=T, buffer_size=16, batch_size=item.get("batch_size", 2), learning_starts=WARMUP,
             target_delay=cfg["target_delay"], policy_delay=cfg["policy_delay"], use_checkpoints=True,
             max_episodes_when_checkpointing=cfg["win"], steps_before_checkpointing=cfg["thr"],
             reset_weight=cfg["w"], progress_bar=False, logger=lg,
@@ -522,7 +525,7 @@ def l_work(item, col):
         elif ev[0] == "epoch" and ev[1] == "actor_checkpoint":
             copies[cur] += 1
     assert cur == len(steps) - 1
-    name = (item["cfg"], item["pattern"], script)
+    name = (item["cfg"], item["pattern"], script, item.get("batch_size", 2))
     for t, p in enumerate(pred):
         assessed = p["kind"] in ("open", "cut", "complete")
         col.tick(1, ("l", name, t) if assessed else None)
